@@ -74,14 +74,107 @@ class SymStr(SymStrBase):
         return any(SymStr.is_char(c, k) for k in codes)
 
     # --- str API used by the parser ------------------------------------------------------
-    def strip(self):
-        WS = (32, 9, 10, 13, 11, 12)
+    def strip(self, chars=None):
+        WS = self._strip_set(chars)
         lo, hi = 0, len(self.cs)
         while lo < hi and self.one_of(self.cs[lo], WS):
             lo += 1
         while hi > lo and self.one_of(self.cs[hi - 1], WS):
             hi -= 1
         return SymStr(self.cs[lo:hi])
+
+    # --- further str API (all positional, forking on character tests) --------------
+    def _strip_set(self, chars):
+        if chars is None:
+            return (32, 9, 10, 13, 11, 12)
+        if isinstance(chars, SymStr):
+            chars = chars.concretize()
+        return tuple(ord(c) for c in chars)
+
+    def rstrip(self, chars=None):
+        ks = self._strip_set(chars)
+        hi = len(self.cs)
+        while hi > 0 and self.one_of(self.cs[hi - 1], ks):
+            hi -= 1
+        return SymStr(self.cs[:hi])
+
+    def lstrip(self, chars=None):
+        ks = self._strip_set(chars)
+        lo = 0
+        while lo < len(self.cs) and self.one_of(self.cs[lo], ks):
+            lo += 1
+        return SymStr(self.cs[lo:])
+
+    def _at(self, i, sub):
+        if i + len(sub) > len(self.cs):
+            return False
+        return all(self.is_char(self.cs[i + k], ord(ch)) for k, ch in enumerate(sub))
+
+    def find(self, sub, start=0):
+        if isinstance(sub, SymStr):
+            sub = sub.concretize()
+        for i in range(start, len(self.cs) - len(sub) + 1):
+            if self._at(i, sub):
+                return i
+        return -1
+
+    def rfind(self, sub):
+        if isinstance(sub, SymStr):
+            sub = sub.concretize()
+        for i in range(len(self.cs) - len(sub), -1, -1):
+            if self._at(i, sub):
+                return i
+        return -1
+
+    def index(self, sub, start=0):
+        i = self.find(sub, start)
+        if i < 0:
+            raise ValueError("substring not found")
+        return i
+
+    def __contains__(self, sub):
+        return self.find(sub) >= 0
+
+    def startswith(self, sub):
+        subs = sub if isinstance(sub, tuple) else (sub,)
+        return any(self._at(0, x) for x in subs)
+
+    def endswith(self, sub):
+        subs = sub if isinstance(sub, tuple) else (sub,)
+        return any(len(x) <= len(self.cs) and self._at(len(self.cs) - len(x), x) for x in subs)
+
+    def partition(self, sep):
+        i = self.find(sep)
+        if i < 0:
+            return self, SymStr([]), SymStr([])
+        return SymStr(self.cs[:i]), SymStr(self.cs[i : i + len(sep)]), SymStr(self.cs[i + len(sep) :])
+
+    def rpartition(self, sep):
+        i = self.rfind(sep)
+        if i < 0:
+            return SymStr([]), SymStr([]), self
+        return SymStr(self.cs[:i]), SymStr(self.cs[i : i + len(sep)]), SymStr(self.cs[i + len(sep) :])
+
+    def split(self, sep=None, maxsplit=-1):
+        if sep is None:
+            raise C.Inconclusive("SymStr.split() on whitespace")
+        out, last, n = [], 0, 0
+        while maxsplit < 0 or n < maxsplit:
+            i = self.find(sep, last)
+            if i < 0:
+                break
+            out.append(SymStr(self.cs[last:i]))
+            last = i + len(sep)
+            n += 1
+        out.append(SymStr(self.cs[last:]))
+        return out
+
+    def replace(self, old, new, count=-1):
+        parts = self.split(old, count)
+        out = parts[0]
+        for p_ in parts[1:]:
+            out = out + new + p_
+        return out
 
     def concretize(self, candidates=None):
         """decide every character (forks): -> python str"""
@@ -169,15 +262,23 @@ class SymStr(SymStrBase):
                 i += 1
             e = 0
             ne = 0
+            uf = C.cur().opts.get("pow10_uf")
             while i < n and self._digit(cs[i]):
-                dv = cs[i] - 48 if isinstance(cs[i], int) else int(SymStr([cs[i]]).concretize("0123456789"))
+                if isinstance(cs[i], int):
+                    dv = cs[i] - 48
+                elif uf:
+                    dv = cs[i] - 48  # symbolic exponent digit: 10**e stays an uninterpreted power
+                else:
+                    dv = int(SymStr([cs[i]]).concretize("0123456789"))
                 e = e * 10 + dv
                 i += 1
                 ne += 1
             if ne == 0:
                 raise ValueError("could not convert string to float")
-            mant = mant * (z3.RealVal(10) ** 0) if False else mant
-            mant = mant * z3.RealVal(10**e) if esign > 0 else mant / z3.RealVal(10**e)
+            if isinstance(e, int):
+                mant = mant * z3.RealVal(10**e) if esign > 0 else mant / z3.RealVal(10**e)
+            else:
+                mant = mant * pow10(e * esign)
         if i != n:
             raise ValueError("could not convert string to float")
         return SymReal(z3.simplify(mant * sign))
@@ -185,6 +286,17 @@ class SymStr(SymStrBase):
     def to_int(self):
         s = self.concretize("0123456789+-")
         return int(s)
+
+
+_POW10 = z3.Function("sx_pow10", z3.IntSort(), z3.RealSort())
+
+
+def pow10(e):
+    """10**e for a symbolic Int exponent: uninterpreted, positive (enough to decide that two
+    printed numbers are equal iff mantissa and exponent agree; the value itself is never needed)"""
+    t = _POW10(e)
+    C.cur()._add(t > 0)
+    return t
 
 
 # ------------------------------------------------------------------------- symre
